@@ -8,15 +8,30 @@
     where the code mutates [pod.Labels] / [pod.Spec.NodeName] / [pod.Status]
     (the same pointer is later handed to Rollback).  [exec] runs a program
     against the store under a fault oracle [faults : nat -> fault] indexed by the
-    API-call number: [Fail] = that call returns an error and does not reach the
-    store, [Crash] = that call and every later one fail.
+    API-call number: [Fail k] = that call returns an error OF KIND [k] (the kinds
+    the API server answers with: InternalError, ServerTimeout, NotFound, Conflict,
+    AlreadyExists, Forbidden) and does not reach the store, [Crash] = that call and
+    every later one fail (InternalError).  The program sees the kind: a response is
+    [RErr k], whether the error was injected or is the API's own answer (a missing
+    object is [RErr ENotFound], an existing one on create [RErr EExists], a refused
+    binding [RErr EConflict]), exactly as the Go code sees an [error] value it can
+    only classify with [apierrors.IsNotFound] etc.
+
+    Concurrent actors: an environment oracle [env : nat -> list estep] lists the
+    changes other actors make to the store right before API call number k of the
+    reconcile: the consumer pod is bound to another node by a direct binding, it is
+    deleted (terminating: deletionTimestamp set, held by a finalizer; or removed),
+    it is removed and re-created under the same name with another UID, the
+    BindRequest is deleted, the reservation pods of a group are deleted.
 
     Go functions modelled
       pkg/binder/controllers/bindrequest_controller.go
         Reconcile ([reconcile]), UpdateStatus + updatePodCondition ([deferred])
       pkg/binder/binding/binder.go
-        Bind ([bind_prog]), reserveGPUs ([reserve_gpus]), patchResourceReceivedTypeAnnotation,
-        Rollback ([rollback])
+        Bind ([bind_prog]; its reaction to the binding call's answer is the parameter [on_bind]: the code is
+        [bind_result_code] - every error, 409 Conflict included, fails the bind and Rollback follows; the
+        variant [bind_result_conflict_is_success] is NOT the code, it exists to show what the theorems exclude),
+        reserveGPUs ([reserve_gpus]), patchResourceReceivedTypeAnnotation, Rollback ([rollback])
       pkg/binder/binding/resourcereservation/resource_reservation.go
         SyncForNode / SyncForPodsList ([sync_for_node]), syncForGpuGroupWithLock / syncForPods
         ([sync_group], [sync_for_pods]), deleteNonReservedPods, deleteReservationPod,
@@ -35,11 +50,14 @@
     API semantics ([do_call]) follow controller-runtime's fake client as the
     harness uses it: a successful Patch of the pod overwrites the in-memory
     object with the server's; a merge patch that nulls a missing label is not an
-    error; the pods/binding sub-resource assigns spec.nodeName
-    once and refuses a second assignment; Get/Delete/Patch of a missing object is
-    NotFound.
+    error; Get/Delete/Patch of a missing object is NotFound; the pods/binding
+    sub-resource behaves like the API server's BindingREST (assignPod /
+    setPodNodeAndMetadata): NotFound for a missing pod, 409 Conflict when the
+    Binding's UID precondition does not match the stored pod, when the pod is being
+    deleted, or when it already has a node name (whichever node); otherwise it
+    assigns spec.nodeName.
 
-    Environment oracles: [faults] (injected API errors), [dp] (the GPU device
+    Environment oracles: [faults] (injected API errors), [env] (concurrent store changes), [dp] (the GPU device
     plugin: answers the k-th wait with a device index or stays silent until the
     reservation service times out), [ord] (Go map iteration order of
     SyncForPodsList: the order in which the groups of the k-th SyncForNode are
@@ -67,13 +85,22 @@ Inductive envkey := ENumGpusBC | EPortion | EVisible | EVisibleBC | EOther.
 Inductive kop := KSet (k : envkey) | KDel (k : envkey).
 Inductive cval := VList (l : list nat) | VPortion | VOther.
 Inductive lsel := LNode | LScaling | LRsv (g : gid) | LGroup (g : gid) | LMulti (g : gid) | LOther.
-Inductive fault := Ok | Fail | Crash.
+Inductive ekind := EInternal | ETimeout | ENotFound | EConflict | EExists | EForbidden.
+Inductive fault := Ok | Fail (k : ekind) | Crash.
+(** what another actor does to the store between two API calls of the reconcile *)
+Inductive estep :=
+| EvBindElsewhere        (* a direct binding assigns the consumer to another node *)
+| EvTerminate            (* the consumer is deleted but held by a finalizer: deletionTimestamp set *)
+| EvRemove               (* the consumer is deleted and gone *)
+| EvRecreate             (* the consumer is removed and re-created under the same name: new UID, no labels, unbound *)
+| EvDeleteBR             (* the BindRequest is deleted *)
+| EvDeleteRsv (g : gid). (* the reservation pods of group g are deleted *)
 Inductive outcome := OkO | ErrO | FailO | CrashO.
 
 Inductive cobs :=
 | CGetBR | CGetPod (r : pref) | CGetNode | CGetCM (c : cmref)
 | CList (l : lsel)
-| CCreateRsv (g : gid) | CCreateCM (c : cmref) (owned : bool)
+| CCreateRsv (g : gid) | CCreateCM (c : cmref) (owner : nat)   (* owner: UID number of the consumer it names as only owner, 0 otherwise *)
 | CDeletePod (r : pref) | CDeleteCM (c : cmref) | CDeleteBR
 | CWatchRsv (g : gid)
 | CPatchLabels (plain : option gid) (multi : list gid)
@@ -96,7 +123,9 @@ Record pod := mkPod {
   p_multi : list gid;      (* labels runai-gpu-group/<g> *)
   p_idx : option nat;      (* annotation run.ai/reserve_for_gpu_index *)
   p_recv : option rtype;   (* annotation received-resource-type *)
-  p_cond : option bool     (* status condition PodBound *)
+  p_cond : option bool;    (* status condition PodBound *)
+  p_uid : nat;             (* metadata.uid of the consumer: 1 = the pod the scenario starts with, +1 per re-creation; 0 for other pods *)
+  p_term : bool            (* metadata.deletionTimestamp set *)
 }.
 
 (** the four keys the binder reads or writes; other keys of a config map are not modelled *)
@@ -109,7 +138,7 @@ Record cdata := mkData {
 Definition data_empty : cdata := mkData None None None None.
 
 Record cm := mkCM {
-  cm_owned : bool;          (* the only owner reference is the consumer pod *)
+  cm_owner : nat;           (* u > 0: the only owner reference is the consumer pod with UID number u; 0: anything else *)
   cm_data : cdata
 }.
 
@@ -226,14 +255,14 @@ Definition data_diff (old new : cdata) : list (envkey * cval) :=
 Inductive call :=
 | AGetBR | AGetPod | AGetNode | AGetCM (c : cmref)
 | AList (l : lsel)
-| ACreateRsv (g : gid) | ACreateCM (c : cmref)
+| ACreateRsv (g : gid) | ACreateCM (c : cmref) (u : nat)
 | ADeletePod (n : nat) (r : pref) | ADeleteCM (c : cmref) | ADeleteBR
 | AWatchRsv (n : nat) (g : gid)
 | APatchLabels (plain : option gid) (multi : option gid)
 | ARemoveLabels (plain : bool) (multi : list gid)
 | APatchRecv (t : rtype)
-| APatchCM (c : cmref) (owner clear : bool) (sets : list (envkey * cval))
-| ABind (selected : bool)
+| APatchCM (c : cmref) (owner : option nat) (clear : bool) (sets : list (envkey * cval))
+| ABind (selected : bool) (uid : nat)      (* uid: the Binding's UID precondition (the in-memory pod's UID) *)
 | APatchBRStatus (ph : option brphase) (att : option nat)
 | APatchPodCond (b : bool).
 
@@ -241,26 +270,31 @@ Definition obs_of (c : call) : cobs :=
   match c with
   | AGetBR => CGetBR | AGetPod => CGetPod PSelf | AGetNode => CGetNode | AGetCM x => CGetCM x
   | AList l => CList l
-  | ACreateRsv g => CCreateRsv g | ACreateCM x => CCreateCM x true
+  | ACreateRsv g => CCreateRsv g | ACreateCM x u => CCreateCM x u
   | ADeletePod _ r => CDeletePod r | ADeleteCM x => CDeleteCM x | ADeleteBR => CDeleteBR
   | AWatchRsv _ g => CWatchRsv g
   | APatchLabels p m => CPatchLabels p (match m with Some g => [g] | None => [] end)
   | ARemoveLabels p m => CRemoveLabels p (sort_nat m)
   | APatchRecv t => CPatchRecv t
-  | APatchCM x o cl sets => CPatchCM x o cl (map (fun kv => KSet (fst kv)) sets)
-  | ABind s => CBind s
+  | APatchCM x o cl sets => CPatchCM x (opt_is_some o) cl (map (fun kv => KSet (fst kv)) sets)
+  | ABind s _ => CBind s
   | APatchBRStatus ph a => CPatchBRStatus ph a
   | APatchPodCond b => CPatchPodCond b
   end.
 
+(** [RErr k]: the call returned an error of kind [k] (injected or the API's own
+    answer - the code cannot tell); [RRefused]: the wait for the device index got
+    no answer (timeout of the reservation service, not an API error) *)
 Inductive resp :=
-| ROk | RFault | RNotFound | RRefused
+| ROk | RErr (k : ekind) | RRefused
 | RPods (l : list pod) | RPod (p : pod) | RCM (c : cm) | RBr (b : brst) | RName (n : nat) | RIdx (i : nat).
+Notation RNotFound := (RErr ENotFound).
 
+(** outcome of a call that reached the API *)
 Definition resp_outcome (r : resp) : outcome :=
-  match r with RFault => FailO | RNotFound | RRefused => ErrO | _ => OkO end.
+  match r with RErr _ | RRefused => ErrO | _ => OkO end.
 Definition resp_ok (r : resp) : bool :=
-  match r with RFault | RNotFound | RRefused => false | _ => true end.
+  match r with RErr _ | RRefused => false | _ => true end.
 
 (** pods in the order lists return them: reservation namespace first *)
 Definition all_pods (s : store) : list pod :=
@@ -294,15 +328,17 @@ Definition set_alive (s : store) (a : bool) : store :=
   mkStore (self s) a (others s) (cm_cap s) (cm_evar s) (br s) (node_ok s).
 
 Definition with_labels (p : pod) (plain : option gid) (multi : list gid) : pod :=
-  mkPod (p_name p) (p_rsv p) (p_node p) (p_phase p) plain multi (p_idx p) (p_recv p) (p_cond p).
+  mkPod (p_name p) (p_rsv p) (p_node p) (p_phase p) plain multi (p_idx p) (p_recv p) (p_cond p) (p_uid p) (p_term p).
 Definition with_node (p : pod) (n : nat) : pod :=
-  mkPod (p_name p) (p_rsv p) n (p_phase p) (p_plain p) (p_multi p) (p_idx p) (p_recv p) (p_cond p).
+  mkPod (p_name p) (p_rsv p) n (p_phase p) (p_plain p) (p_multi p) (p_idx p) (p_recv p) (p_cond p) (p_uid p) (p_term p).
 Definition with_idx (p : pod) (i : option nat) : pod :=
-  mkPod (p_name p) (p_rsv p) (p_node p) (p_phase p) (p_plain p) (p_multi p) i (p_recv p) (p_cond p).
+  mkPod (p_name p) (p_rsv p) (p_node p) (p_phase p) (p_plain p) (p_multi p) i (p_recv p) (p_cond p) (p_uid p) (p_term p).
 Definition with_recv (p : pod) (t : option rtype) : pod :=
-  mkPod (p_name p) (p_rsv p) (p_node p) (p_phase p) (p_plain p) (p_multi p) (p_idx p) t (p_cond p).
+  mkPod (p_name p) (p_rsv p) (p_node p) (p_phase p) (p_plain p) (p_multi p) (p_idx p) t (p_cond p) (p_uid p) (p_term p).
 Definition with_cond (p : pod) (c : option bool) : pod :=
-  mkPod (p_name p) (p_rsv p) (p_node p) (p_phase p) (p_plain p) (p_multi p) (p_idx p) (p_recv p) c.
+  mkPod (p_name p) (p_rsv p) (p_node p) (p_phase p) (p_plain p) (p_multi p) (p_idx p) (p_recv p) c (p_uid p) (p_term p).
+Definition with_term (p : pod) (t : bool) : pod :=
+  mkPod (p_name p) (p_rsv p) (p_node p) (p_phase p) (p_plain p) (p_multi p) (p_idx p) (p_recv p) (p_cond p) (p_uid p) t.
 
 Definition has_pod (n : nat) (l : list pod) : bool := existsb (fun p => p_name p =? n) l.
 Definition del_pod (n : nat) (l : list pod) : list pod := filter (fun p => negb (p_name p =? n)) l.
@@ -321,17 +357,19 @@ Definition do_call (c : call) (ans : option nat) (s : store) : store * resp :=
   | AGetCM x => (s, match cm_get x s with Some v => RCM v | None => RNotFound end)
   | AList l => (s, RPods (filter (selects l) (all_pods s)))
   | ACreateRsv g =>
-      if has_pod (rsv_name g) (others s) then (s, RRefused)
-      else (set_others s (others s ++ [mkPod (rsv_name g) true 1 PhOther (Some g) [] None None None]),
+      if has_pod (rsv_name g) (others s) then (s, RErr EExists)
+      else (set_others s (others s ++ [mkPod (rsv_name g) true 1 PhOther (Some g) [] None None None 0 false]),
             RName (rsv_name g))
-  | ACreateCM x =>
+  | ACreateCM x u =>
       match cm_get x s, x with
-      | Some _, _ => (s, RRefused)
-      | None, CmOther => (s, RRefused)
-      | None, _ => (cm_put x (Some (mkCM true data_empty)) s, ROk)
+      | Some _, _ => (s, RErr EExists)
+      | None, CmOther => (s, RErr EExists)
+      | None, _ => (cm_put x (Some (mkCM u data_empty)) s, ROk)
       end
   | ADeletePod n _ =>
-      if n =? 0 then (if self_alive s then (set_alive s false, ROk) else (s, RNotFound))
+      if n =? 0 then (if self_alive s
+                      then (set_alive (set_self s (mkPod 0 false 0 PhOther None [] None None None (p_uid (self s)) false)) false, ROk)
+                      else (s, RNotFound))
       else if has_pod n (others s) then (set_others s (del_pod n (others s)), ROk) else (s, RNotFound)
   | ADeleteCM x =>
       match cm_get x s with
@@ -368,15 +406,19 @@ Definition do_call (c : call) (ans : option nat) (s : store) : store * resp :=
   | APatchCM x owner clear sets =>
       match cm_get x s with
       | Some v =>
-          let v' := mkCM (if owner then true else cm_owned v)
+          let v' := mkCM (match owner with Some u => u | None => cm_owner v end)
                          (data_apply sets (if clear then data_empty else cm_data v)) in
           (cm_put x (Some v') s, ROk)
       | None => (s, RNotFound)
       end
-  | ABind sel =>
+  | ABind sel uid =>
+      (* BindingREST.Create -> assignPod -> setPodNodeAndMetadata: a missing pod is NotFound; a failed UID
+         precondition, a pod that is being deleted and a pod that already has a node name are 409 Conflict *)
       if self_alive s then
-        if p_node (self s) =? 0 then (set_self s (with_node (self s) (if sel then 1 else 2)), ROk)
-        else (s, RRefused)
+        if negb (uid =? p_uid (self s)) then (s, RErr EConflict)
+        else if p_term (self s) then (s, RErr EConflict)
+        else if p_node (self s) =? 0 then (set_self s (with_node (self s) (if sel then 1 else 2)), ROk)
+        else (s, RErr EConflict)
       else (s, RNotFound)
   | APatchBRStatus ph att =>
       match br s with
@@ -394,13 +436,36 @@ Record mem := mkMem {
   m_plain : option gid;
   m_multi : list gid;
   m_cond : option bool;
-  m_node : nat
+  m_node : nat;
+  m_uid : nat               (* pod.UID: what the Binding's precondition and the config maps' owner reference are built from *)
 }.
-Definition mem_of (p : pod) : mem := mkMem (p_plain p) (p_multi p) (p_cond p) (p_node p).
-Definition mem_shell : mem := mkMem None [] None 0.
-Definition mem_with_node (m : mem) (n : nat) : mem := mkMem (m_plain m) (m_multi m) (m_cond m) n.
+Definition mem_of (p : pod) : mem := mkMem (p_plain p) (p_multi p) (p_cond p) (p_node p) (p_uid p).
+Definition mem_shell : mem := mkMem None [] None 0 0.
+Definition mem_with_node (m : mem) (n : nat) : mem := mkMem (m_plain m) (m_multi m) (m_cond m) n (m_uid m).
 Definition mem_with_labels (m : mem) (pl : option gid) (mu : list gid) : mem :=
-  mkMem pl mu (m_cond m) (m_node m).
+  mkMem pl mu (m_cond m) (m_node m) (m_uid m).
+
+(** ** What other actors do to the store *)
+(** the consumer's record once it is gone *)
+Definition dead_pod (u : nat) : pod := mkPod 0 false 0 PhOther None [] None None None u false.
+(** the consumer as its controller re-creates it: same name, new UID, Pending, unbound, none of the binder's labels / annotations *)
+Definition fresh_pod (u : nat) : pod := mkPod 0 false 0 PhPending None [] None None None u false.
+
+Definition env_step (e : estep) (s : store) : store :=
+  match e with
+  | EvBindElsewhere =>
+      (* goes through the same pods/binding handler: only an existing, not terminating, unbound pod can be bound *)
+      if self_alive s && negb (p_term (self s)) && (p_node (self s) =? 0)
+      then set_self s (with_node (self s) 2) else s
+  | EvTerminate => if self_alive s then set_self s (with_term (self s) true) else s
+  | EvRemove => if self_alive s then set_alive (set_self s (dead_pod (p_uid (self s)))) false else s
+  | EvRecreate => set_alive (set_self s (fresh_pod (S (p_uid (self s))))) true
+  | EvDeleteBR => set_br s None
+  | EvDeleteRsv g =>
+      set_others s (filter (fun p => negb (p_rsv p && opt_nat_eqb (p_plain p) (Some g))) (others s))
+  end.
+Definition apply_env (l : list estep) (s : store) : store := fold_left (fun a e => env_step e a) l s.
+Definition no_env : nat -> list estep := fun _ => [].
 
 (** ** Programs *)
 Inductive prog (A : Type) : Type :=
@@ -449,28 +514,33 @@ Definition node_obs (st : store) : nat := if self_alive st then p_node (self st)
 
 Section Exec.
   Variable faults : nat -> fault.
+  Variable env : nat -> list estep.
   Variable dp : nat -> option nat.
   Variable ord : nat -> list gid.
 
   Definition is_watch (c : call) : bool := match c with AWatchRsv _ _ => true | _ => false end.
 
+  (** API call number [s_idx s]: first the other actors' changes scheduled right
+      before it, then the call itself - reaching the store, or failing with the
+      injected kind without reaching it *)
   Definition step (c : call) (s : state) : state * resp :=
-    let o := if s_crashed s then Fail else faults (s_idx s) in
+    let st0 := apply_env (env (s_idx s)) (s_store s) in
+    let o := if s_crashed s then Fail EInternal else faults (s_idx s) in
     match o with
     | Ok =>
-        let '(st', r) := do_call c (if is_watch c then dp (s_watches s) else None) (s_store s) in
+        let '(st', r) := do_call c (if is_watch c then dp (s_watches s) else None) st0 in
         (mkState st' (s_mem s) (S (s_idx s)) (s_crashed s)
                  (if is_watch c then S (s_watches s) else s_watches s) (s_syncs s)
                  (s_nfail s) (s_mark s) (s_mark_end s)
                  ((obs_of c, resp_outcome r) :: s_log s) (node_obs st' :: s_hist s), r)
-    | Fail =>
-        (mkState (s_store s) (s_mem s) (S (s_idx s)) (s_crashed s) (s_watches s) (s_syncs s)
+    | Fail k =>
+        (mkState st0 (s_mem s) (S (s_idx s)) (s_crashed s) (s_watches s) (s_syncs s)
                  (S (s_nfail s)) (s_mark s) (s_mark_end s)
-                 ((obs_of c, FailO) :: s_log s) (node_obs (s_store s) :: s_hist s), RFault)
+                 ((obs_of c, FailO) :: s_log s) (node_obs st0 :: s_hist s), RErr k)
     | Crash =>
-        (mkState (s_store s) (s_mem s) (S (s_idx s)) true (s_watches s) (s_syncs s)
+        (mkState st0 (s_mem s) (S (s_idx s)) true (s_watches s) (s_syncs s)
                  (S (s_nfail s)) (s_mark s) (s_mark_end s)
-                 ((obs_of c, CrashO) :: s_log s) (node_obs (s_store s) :: s_hist s), RFault)
+                 ((obs_of c, CrashO) :: s_log s) (node_obs st0 :: s_hist s), RErr EInternal)
     end.
 
   (** the iteration order of the k-th SyncForNode: the oracle's order restricted
@@ -531,7 +601,7 @@ Fixpoint delete_running (ps : list pod) : prog bool :=
 
 (** deleteReservationPod: NotFound is not an error *)
 Definition delete_rsv (n : nat) (r : pref) : prog bool :=
-  Api (ADeletePod n r) (fun x => match x with ROk | RNotFound => Ret false | _ => Ret true end).
+  Api (ADeletePod n r) (fun x => match x with ROk | RNotFound => Ret false | _ => Ret true end).   (* apierrors.IsNotFound *)
 
 (** syncForPods *)
 Definition sync_for_pods (ps : list pod) : prog bool :=
@@ -571,6 +641,12 @@ Definition sync_for_node : prog bool :=
 
 Section Reconcile.
   Variable sc : scen.
+  (** how Bind treats the answer of the binding call (the code as it is: [bind_result_code]) *)
+  Variable on_bind : resp -> err.
+  (** where Bind takes the Binding's UID precondition from: [false] = the pod as it was when Bind started
+      (the code as it is, since d9da4f6); [true] = the in-memory pod at the end of Bind, after its patches
+      have overwritten it with the server's answers (the code BEFORE d9da4f6) *)
+  Variable uid_at_end : bool.
 
   (** updatePodGPUGroup (+ the sync ReserveGpuDevice runs when the patch fails) *)
   Definition label_consumer (g : gid) (i : nat) : prog (option nat) :=
@@ -637,22 +713,23 @@ Section Reconcile.
 
   (** UpsertJobConfigMap with empty data: true = error *)
   Definition upsert_cm (x : cmref) : prog bool :=
+    GetMem (fun m =>
     Api (AGetCM x) (fun r =>
       match r with
-      | RNotFound => Api (ACreateCM x) (fun r2 => Ret (negb (resp_ok r2)))
+      | RNotFound => Api (ACreateCM x (m_uid m)) (fun r2 => Ret (negb (resp_ok r2)))   (* errors.IsNotFound *)
       | RCM v =>
-          if cm_owned v
-          then Api (APatchCM x false false []) (fun r2 => Ret (negb (resp_ok r2)))
-          else Api (APatchCM x true (negb (data_is_empty (cm_data v))) [])
+          if cm_owner v =? m_uid m       (* compareObjectOwners: the existing owner reference is this pod (name and UID) *)
+          then Api (APatchCM x None false []) (fun r2 => Ret (negb (resp_ok r2)))
+          else Api (APatchCM x (Some (m_uid m)) (negb (data_is_empty (cm_data v))) [])
                    (fun r2 => Ret (negb (resp_ok r2)))
       | _ => Ret true
-      end).
+      end)).
 
   (** UpdateConfigMapEnvironmentVariable *)
   Definition update_cm (x : cmref) (f : cdata -> cdata) : prog bool :=
     Api (AGetCM x) (fun r =>
       match r with
-      | RCM v => Api (APatchCM x false false (data_diff (cm_data v) (f (cm_data v))))
+      | RCM v => Api (APatchCM x None false (data_diff (cm_data v) (f (cm_data v))))
                      (fun r2 => Ret (negb (resp_ok r2)))
       | _ => Ret true
       end).
@@ -682,6 +759,7 @@ Section Reconcile.
 
   (** Binder.Bind *)
   Definition bind_prog : prog err :=
+    GetMem (fun m0 =>          (* podUID := pod.UID *)
     e0 <- sync_for_node ;;
     if (e0 : bool) then Ret EErr else
     r <- (if sc_fraction sc then reserve_gpus else Ret (ENone, [])) ;;
@@ -698,12 +776,11 @@ Section Reconcile.
               match r1 with
               | RPod p =>
                   SetMem (mem_of p) (
-                    Api (ABind true) (fun r2 =>
-                      match r2 with ROk => Ret ENone | _ => Ret EErr end))
+                    Api (ABind true (if uid_at_end then p_uid p else m_uid m0)) (fun r2 => Ret (on_bind r2)))
               | _ => Ret EErr
               end)))
     | e => Ret e
-    end.
+    end).
 
   (** Binder.Rollback (its error is only logged) *)
   Definition rollback : prog unit :=
@@ -733,7 +810,9 @@ Section Reconcile.
     e' <- (if brphase_eqb (b_phase b) ph' && negb bump then Ret false
            else Api (APatchBRStatus (if brphase_eqb (b_phase b) ph' then None else Some ph')
                                     (if bump then Some (S (b_attempts b)) else None)) (fun _ => Ret e)) ;;
-    let c := negb e' || negb (requeue =? 0) in
+    (* updatePodCondition(ctx, bindRequest, pod, ctrl.Result{}, bindErr): the outcome of the bind itself
+       (since 5e8c8c9), not what UpdateStatus returned nor the requeue delay *)
+    let c := negb e in
     GetMem (fun m =>
       let changed := match m_cond m with
                      | None => true
@@ -772,12 +851,23 @@ Section Reconcile.
                   | _ => deferred b true
                   end))
           end
-      | RNotFound => Ret (0, false)
+      | RNotFound => Ret (0, false)      (* client.IgnoreNotFound *)
       | _ => Ret (0, true)
       end).
 End Reconcile.
 
+(** Bind as it is: every error of the binding call - Conflict included - fails the bind (Rollback follows) *)
+Definition bind_result_code (r : resp) : err := match r with ROk => ENone | _ => EErr end.
+(** the VARIANT that takes a 409 Conflict of the binding call for "the pod is already bound": not the code *)
+Definition bind_result_conflict_is_success (r : resp) : err :=
+  match r with ROk | RErr EConflict => ENone | _ => EErr end.
+
 (** one reconcile from a store *)
-Definition run (sc : scen) (faults : nat -> fault) (dp : nat -> option nat) (ord : nat -> list gid)
-  (st : store) : state * (nat * bool) :=
-  exec faults dp ord (reconcile sc) (init_state st).
+Definition run_with (on_bind : resp -> err) (uid_at_end : bool) (sc : scen) (faults : nat -> fault)
+  (env : nat -> list estep) (dp : nat -> option nat) (ord : nat -> list gid) (st : store) : state * (nat * bool) :=
+  exec faults env dp ord (reconcile sc on_bind uid_at_end) (init_state st).
+Definition run := run_with bind_result_code false.
+(** the variants, named for what they are *)
+Definition run_conflict_is_success := run_with bind_result_conflict_is_success false.
+(** Bind before d9da4f6: the Binding's UID precondition is read from the in-memory pod at the end of Bind *)
+Definition run_uid_at_end := run_with bind_result_code true.
